@@ -68,6 +68,14 @@ def main():
             svc = GRPCService(cfg)
             svc.start()
             out['calls'] = calls
+        elif kind == 'trace_hooks':
+            from deep.processor.trigger_handler import TriggerHandler
+            cfg = ConfigService(code, tracepoints=TracepointConfigService())
+            th = TriggerHandler(cfg, None)
+            before = sys.gettrace()
+            th.start()
+            out['installed'] = sys.gettrace() is not before
+            th.shutdown()
         elif kind == 'auth':
             from deep.grpc import GRPCService
             cfg = ConfigService(code, tracepoints=TracepointConfigService())
